@@ -3,7 +3,8 @@ from . import core, conn, hist
 
 RULE = ("histories of commands on one session (all 9 suites), each command with a per-attempt outcome script over "
         "{valid reply, node busy, timeout code, garbage, truncated body, lost reply, bad signature}, exhaustive to the stated "
-        "depth plus longer random histories; predicate: the session sequence numbers of the datagrams the (simulated and the "
+        "depth plus longer random histories, and histories with a real 50 ms back-off in which a command's context is cancelled or "
+        "expires between two attempts, followed by further commands; predicate: the session sequence numbers of the datagrams the (simulated and the "
         "specification's) BMC receives are 1,2,3,... in transmission order across the whole history, and session-less "
         "datagrams (commands and the handshake payloads) carry session ID 0 and sequence 0; tie: Coq session_loop reproduces "
         "every datagram. distinct by (command, script, suite, position in history)")
@@ -62,6 +63,20 @@ def run(ch, build):
                         ch.violation({"kind": "c09", "conn": "handshake"}, {"scenario": scn, "event": e,
                                      "what": "handshake datagram with non-null session header"})
     hist.replay(ch, scns, outs, (h,), "c09")
+    # histories in which a command ENDS between attempts - its context is cancelled or expires during a real back-off pause -
+    # followed by further commands on the session: the numbers already transmitted must not be forgotten
+    scns = []
+    for k in range(4 if ch.quick() else 18):
+        su = hist.SUITES[k % 9]
+        pool = hist.command_pool(ch.rng, True)
+        steps = [{"op": "open", "user": "admin", "password": b"secret".hex(), "priv": 4, "lookup": True, "suites": [list(su)]}]
+        for j in range(6):
+            steps.append({"op": "cmd", "conn": "session", "cmd": ch.rng.choice(pool), "script": ch.rng.choice([["busy"] * 6, ["garbage"] * 6, ["badsig", "busy", "c3", "busy", "c3"]]),
+                          **ch.rng.choice([{"cancel_ms": 25}, {"cancel_ms": 75}, {"cancel_ms": 125}, {"ctx_ms": 75}, {"ctx_ms": 130}])})
+            steps.append({"op": "cmd", "conn": "session", "cmd": ch.rng.choice(pool), "script": ch.rng.choice([["ok"], ["busy", "ok"]])})
+        scns.append({"bmc": conn.default_bmc(seed=300 + k, suites=[[100, su[0], su[1], su[2]]]), "timeout_ms": 40, "backoff_ms": 50, "steps": steps})
+    outs = conn.run_scenarios(scns)
+    hist.replay(ch, scns, outs, (Hook(),), "c09")
     # session-less histories
     scripts = [s for s in hist.all_scripts(hist.ALPHA_SL, depth) if hist.useful(s, False)]
     # replies whose wrapper carries a non-null session ID / sequence number (the library does not reject them):
